@@ -273,6 +273,31 @@ func c49Report(c *fw.Ctx, kind string, diffs []c49Diff) {
 		if d.dir < 2 {
 			if cl := c49DefectClass(d.dir, cfg, d.q); cl != "" {
 				key = dirNames[d.dir] + ": class " + cl
+			} else if len(d.files) == 1 && d.files["a"] != nil && strings.HasPrefix(d.q.Path, "a/") {
+				// the same families seen from a/.gitignore: its patterns are relative to a/
+				if cl := c49DefectClass(d.dir, igConfig{Root: c49Lines(d.files["a"])}, igQuery{strings.TrimPrefix(d.q.Path, "a/"), d.q.IsDir}); cl != "" {
+					key = dirNames[d.dir] + ": class " + cl
+				}
+			}
+			if key == "" && d.dir == 1 && d.q.IsDir {
+				// the trailing-`/**` defect in its negated form: `!x/**` matches the
+				// directory x itself and re-includes it; for git x stays ignored
+				for _, data := range d.files {
+					for _, l := range c49Lines(data) {
+						if t := strings.TrimSuffix(strings.TrimRight(l, " "), "/"); strings.HasPrefix(t, "!") && strings.HasSuffix(t, "/**") {
+							key = dirNames[1] + ": class a trailing `/**` matches the directory itself (negated form: `!x/**` re-includes the directory x)"
+						}
+					}
+				}
+			}
+			if key == "" {
+				for _, data := range d.files {
+					for _, l := range c49Lines(data) {
+						if t := strings.TrimRight(l, " "); t != l && strings.HasSuffix(t, "\\") && len(l)-len(t) >= 2 {
+							key = "class trailing blanks after an escaped blank: the escaped blank is trimmed as well"
+						}
+					}
+				}
 			}
 		}
 		if key == "" {
@@ -296,9 +321,9 @@ func c49Report(c *fw.Ctx, kind string, diffs []c49Diff) {
 func c49RunBatched(c *fw.Ctx, g *fw.Git, kind string, dirs []string, allQ []igQuery, n int, cfgAt func(i int) c49Files) {
 	const chunk = 256
 	nChunks := (n + chunk - 1) / chunk
-	nForest := 16
-	if nChunks < nForest {
-		nForest = nChunks
+	nForest := 8 // each forest is reused for several chunks: creating its directories is the expensive part
+	if (nChunks+1)/2 < nForest {
+		nForest = (nChunks + 1) / 2
 	}
 	forests := make(chan *c49Forest2, nForest)
 	c.ParDo(nForest, 0, func(int) { forests <- c49NewForest2(c, dirs, chunk) })
@@ -492,7 +517,7 @@ func c49More(c *fw.Ctx, g *fw.Git) {
 	for i := 0; i < 5000; i++ {
 		fmt.Fprintf(&many, "x%d\n", i)
 	}
-	contents := []struct{ name, data string }{
+	contents := []struct{ name, data string }{ // several names may share one defect: see fClass below
 		{"CRLF", "a\r\nb/\r\n"},
 		{"no final newline", "b\na"},
 		{"no final newline, CR", "a\r"},
@@ -508,7 +533,7 @@ func c49More(c *fw.Ctx, g *fw.Git) {
 		{"blank lines", "\n\n a\n\na\n\n"},
 		{"trailing space then CR", "a \r\n"},
 		{"CR in the middle", "a\rb\nb\n"},
-		{"negation with CRLF", "*\r\n!a\r\n"},
+		{"negation with CRLF", "a*\r\n!ab\r\n"},
 		{"trailing tab", "a\t\nb\n"},
 		{"only CRLF", "\r\n"},
 		{"comment with CRLF", "#a\r\nb\r\n"},
@@ -538,7 +563,14 @@ func c49More(c *fw.Ctx, g *fw.Git) {
 	dirNames := []string{"go-git ignores, git does not", "git ignores, go-git does not", "go-git panics"}
 	seen := map[string]bool{}
 	for _, d := range fdiffs {
-		key := fmt.Sprintf("%s: ignore file format: %s", dirNames[d.dir], contents[d.idx/len(places)].name)
+		name := contents[d.idx/len(places)].name
+		switch {
+		case strings.HasPrefix(name, "long ") || name == "line of 65536 then pattern":
+			name = "a line of 64 KiB or more"
+		case strings.HasPrefix(name, "BOM"):
+			name = "BOM"
+		}
+		key := fmt.Sprintf("%s: ignore file format: %s", dirNames[d.dir], name)
 		if seen[key] {
 			continue
 		}
